@@ -91,6 +91,9 @@ inductive AdvItem
 inductive Peer
   /-- a stream header; `ok = false`: one the header checks reject -/
   | hdr (ok : Bool)
+  /-- a well-formed stream header of the other framing: `<open/>` (RFC 7395) on a TCP session,
+  `<stream:stream>` on a WebSocket session -/
+  | hdrOther
   /-- a features list -/
   | adv (items : List AdvItem)
   /-- any other element (a selection when the receiver reads it); `iq`: wrapped in an IQ,
@@ -336,6 +339,7 @@ def tlsFeature (C : List Feature) : Option Feature := C.find? (fun f => f.name.n
 /-- name under which a peer item is looked up when the receiver reads it as a selection -/
 def Peer.selName : Peer → Option (FName × Bool × Bool)
   | .hdr _ => some (⟨nsStream, 0⟩, false, true)
+  | .hdrOther => some (⟨nsStream, 3⟩, false, true)
   | .adv _ => some (⟨nsStream, 1⟩, false, true)
   | .serr => some (⟨nsStream, 2⟩, false, true)
   | .elem n iq p => some (n, iq, p)
